@@ -82,19 +82,30 @@ const (
 	c16EvRefused           // request [private]: refused at once
 	c16EvEarlyClose        // request [foreign-ip], client closes when asked for dial data: finishes at once
 	c16EvWait16            // 16 s pass: every stalled request has timed out
+	c16EvDialHang          // request [same-ip]: needs no dial data; its dial-back takes 15 s (in service while it dials)
 )
 
-var c16EvNames = []string{"stalling-request", "refused-request", "early-close-request", "wait-16s"}
+var c16EvNames = []string{"stalling-request", "refused-request", "early-close-request", "wait-16s", "slow-dial-request"}
 
 func c16ConcJob(ids *c16IDs, obs []c16Obs, conc int, seq []int) c16Job {
+	return c16ConcJobDD(ids, obs, conc, 12, seq)
+}
+
+// c16ConcJobDD: dd = the dial-data requests the server accepts per minute (1: every request that needs dial data after
+// the first is turned down at that limit while others of the same peer are still in service).
+func c16ConcJobDD(ids *c16IDs, obs []c16Obs, conc, dd int, seq []int) c16Job {
 	var sn []string
 	for _, ev := range seq {
 		sn = append(sn, c16EvNames[ev])
 	}
 	name := fmt.Sprintf("concurrent limit=%d events=%s", conc, strings.Join(sn, ","))
+	if dd != 12 {
+		name = fmt.Sprintf("concurrent limit=%d dial-data-per-minute=%d events=%s", conc, dd, strings.Join(sn, ","))
+	}
 	return c16Job{name: name, run: func(t *testing.T) *c16JobResult {
 		jr := &c16JobResult{}
-		e := c16NewEnv(ids, c16DNSTable(obs[0]), false, WithServerRateLimit(60, 12, 12, conc))
+		e := c16NewEnv(ids, c16DNSTable(obs[0]), false, WithServerRateLimit(60, 12, dd, conc))
+		e.dialHang = 15 * time.Second
 		var running []*c16Running
 		maxServed, rejected := 0, 0
 		for i, ev := range seq {
@@ -105,6 +116,8 @@ func c16ConcJob(ids *c16IDs, obs []c16Obs, conc int, seq []int) c16Job {
 				running = append(running, c16Start(e, ids, obs, c16Req{Requester: "a", Classes: []int{int(c16Private)}, PortBase: 10 * i}))
 			case c16EvEarlyClose:
 				running = append(running, c16Start(e, ids, obs, c16Req{Requester: "a", Classes: []int{int(c16Foreign)}, Beh: int(c16BEarlyClose), PortBase: 10 * i}))
+			case c16EvDialHang:
+				running = append(running, c16Start(e, ids, obs, c16Req{Requester: "a", Classes: []int{int(c16Same)}, PortBase: 10 * i}))
 			case c16EvWait16:
 				time.Sleep(16 * time.Second)
 			}
@@ -112,7 +125,12 @@ func c16ConcJob(ids *c16IDs, obs []c16Obs, conc int, seq []int) c16Job {
 			served := 0
 			e.mu.Lock()
 			for _, r := range running {
-				if !r.o.done && r.o.ddr() != nil {
+				// in service: asked for dial data and not finished, or its dial-back is under way
+				dialing := false
+				for _, a := range r.o.req.Addrs {
+					dialing = dialing || e.dialing[a] > 0
+				}
+				if !r.o.done && (r.o.ddr() != nil || dialing) {
 					served++
 				}
 			}
@@ -344,7 +362,13 @@ func c16ServerMulti(t *testing.T, ids *c16IDs, obs []c16Obs) {
 			jobs = append(jobs, c16ConcJob(ids, obs, conc, seq))
 		}
 	}
-	r.Bounds["concurrent"] = fmt.Sprintf("MaxConcurrentRequestsPerPeer 1,2,3; every sequence of %d events over {%s}; one peer", n, strings.Join(c16EvNames, ", "))
+	// ... and with a dial-data limit of one per minute: requests turned down at THAT limit while others of the peer are
+	// in service (stalled in the dial-data phase, or dialling back slowly)
+	for _, seq := range c16Seqs([]int{c16EvStall, c16EvDialHang, c16EvEarlyClose, c16EvWait16}, n) {
+		jobs = append(jobs, c16ConcJobDD(ids, obs, 2, 1, seq))
+	}
+	r.Bounds["concurrent"] = fmt.Sprintf("MaxConcurrentRequestsPerPeer 1,2,3 (dial-data limit 12/min) over {%s}, and MaxConcurrentRequestsPerPeer 2 with a dial-data limit of 1/min over {%s}; every sequence of %d events; one peer",
+		strings.Join(c16EvNames[:4], ", "), strings.Join([]string{c16EvNames[0], c16EvNames[4], c16EvNames[2], c16EvNames[3]}, ", "), n)
 	c16RunJobs(t, r, jobs)
 	r.Flush()
 
